@@ -330,12 +330,15 @@ class FaultPlan(object):
     persist: [hook kind or None, node indices or None, excname]  every matching invocation raises
     """
 
-    __slots__ = ("once", "persist")
+    __slots__ = ("once", "persist", "act")
 
     def __init__(self, spec):
         self.once = []
         self.persist = []
+        self.act = {}
         if spec:
+            for k, x in spec.get("act", ()):
+                self.act[k] = x
             for ent in spec.get("once", ()):
                 k, exc = ent[0], ent[1]
                 kinds = ent[2] if len(ent) > 2 else None
@@ -369,6 +372,7 @@ class World(object):
         self.plan = FaultPlan(None)
         self.hooklog = []
         self.fired = []
+        self.acted = []
         self.hook_count = 0
         self.serial = 0
         self.total_hooks = 0
@@ -412,6 +416,7 @@ class World(object):
         self.plan = FaultPlan(faultspec)
         self.hooklog = []
         self.fired = []
+        self.acted = []
         self.hook_count = 0
 
     def on_hook(self, node, kind, arg):
@@ -424,6 +429,13 @@ class World(object):
         else:
             ai = tuple(self.index(x) for x in arg)
         obs = self._observe(node, kind, arg) if self.observe_hooks else None
+        if self.plan.act:
+            # a hook that changes the tree itself: it detaches some *other* node (e.g. a class that
+            # keeps child names unique evicts the same-named sibling in _pre_attach)
+            x = self.plan.act.pop(k, None)
+            if x is not None and self.nodes[x] is not node:
+                self.acted.append((k, x))
+                self.nodes[x].parent = None
         if self.hook_reads:
             # a hook that looks at the tree (logging, validation, capacity checks ...)
             others = (arg,) if kind in PARENT_HOOKS else tuple(arg)[:2]
